@@ -1,8 +1,10 @@
 From CM Require Export Base.Str.
 (** core_codemods/sonar/results.py: the expression selecting the entries of a Sonar document.
     [IssuesOrElse]: `data.get("issues") or [] + data.get("hotspots") or []`  (parses as issues or ([]+hotspots) or [])
-    [IssuesPlusHotspots]: `(data.get("issues") or []) + (data.get("hotspots") or [])` *)
-Inductive sonar_select := IssuesOrElse | IssuesPlusHotspots.
+    [IssuesPlusHotspots]: `(data.get("issues") or []) + (data.get("hotspots") or [])`
+    [IssuesPlusHotspotsPerEntry]: the same iterable, and the loop body (status test + from_result + add_result) is
+    wrapped in its own try/except: a malformed entry is skipped instead of discarding the whole file *)
+Inductive sonar_select := IssuesOrElse | IssuesPlusHotspots | IssuesPlusHotspotsPerEntry.
 (** core_codemods/defectdojo/results.py: only the pinned shape is known. *)
 Inductive dd_shape := DDAsPinned.
 (** codemodder/sarifs.py: detect_sarif_tools wraps each run's detection in its own try/except (only the pinned shape is known). *)
